@@ -535,6 +535,17 @@ var tUint64 = types.Typ[types.Uint64]
 
 func (e *Engine) specErr(format string, a ...interface{}) {
 	msg := fmt.Sprintf(format, a...)
+	if e.specCtx != "" && strings.HasPrefix(msg, "unknown name ") {
+		// a loop or call-site clause names a local the code no longer has (renamed, removed): the clause is stale. Its own
+		// obligations are not judged (they carry the marker constant); everything else is checked as usual.
+		for _, s := range e.stale {
+			if s == msg {
+				return
+			}
+		}
+		e.stale = append(e.stale, msg)
+		return
+	}
 	e.specErrs = append(e.specErrs, msg)
 }
 
